@@ -201,6 +201,29 @@ else:
         return arg.arg
 
 
+def _bound_names(node):
+    """Yields every name that is (re)bound somewhere below ``node``"""
+    for child in ast.walk(node):
+        if isinstance(child, ast.Name):
+            if not isinstance(child.ctx, ast.Load):
+                yield child.id
+        elif isinstance(child, (ast.FunctionDef, ast.ClassDef,
+                                getattr(ast, 'AsyncFunctionDef', ()))):
+            yield child.name
+        elif isinstance(child, ast.ExceptHandler):
+            if child.name:
+                yield child.name
+        elif isinstance(child, ast.alias):
+            yield (child.asname or child.name).split('.')[0]
+        elif isinstance(child, (getattr(ast, 'MatchAs', ()),
+                                getattr(ast, 'MatchStar', ()))):
+            if child.name:
+                yield child.name
+        elif isinstance(child, getattr(ast, 'MatchMapping', ())):
+            if child.rest:
+                yield child.rest
+
+
 class CallListerVisitor(ast.NodeVisitor):
     def __init__(self, func):
         self.func = func
@@ -218,7 +241,7 @@ class CallListerVisitor(ast.NodeVisitor):
             self.process_Call(node)
 
     def process_parameters(self, args, main=False):
-        for arg in args.args:
+        for arg in getattr(args, 'posonlyargs', []) + args.args:
             name = get_param(arg)
             self.namespace[name] = Arg(name) if main else Unknown(arg)
         if sys.version_info > (3,):
@@ -256,7 +279,15 @@ class CallListerVisitor(ast.NodeVisitor):
             if not isinstance(name, Unknown) and not (ro and isinstance(name, ast.Name)):
                 self.visit(name)
 
+    def bind_name(self, name, node):
+        """Takes note of a construct other than a plain assignment that
+        (re)binds ``name``: whatever it denoted is unknown from there on."""
+        if name:
+            self.namespace[name] = Unknown(node)
+
     def visit_FunctionDef(self, node):
+        # def and async def bind their name in the enclosing scope
+        self.bind_name(getattr(node, 'name', None), node)
         self.namespace = Namespace(self.namespace)
         self.process_parameters(node.args)
         body = node.body
@@ -268,7 +299,52 @@ class CallListerVisitor(ast.NodeVisitor):
             self.visit(stmt)
         self.namespace = self.namespace.parent
 
-    visit_Lambda = visit_FunctionDef
+    visit_Lambda = visit_AsyncFunctionDef = visit_FunctionDef
+
+    def visit_ClassDef(self, node):
+        self.bind_name(node.name, node)
+        self.generic_visit(node)
+
+    def visit_ExceptHandler(self, node):
+        self.bind_name(node.name, node)
+        self.generic_visit(node)
+
+    def visit_alias(self, node):
+        self.bind_name((node.asname or node.name).split('.')[0], node)
+
+    def visit_MatchAs(self, node):
+        self.bind_name(node.name, node)
+        self.generic_visit(node)
+
+    visit_MatchStar = visit_MatchAs
+
+    def visit_MatchMapping(self, node):
+        self.bind_name(node.rest, node)
+        self.generic_visit(node)
+
+    def visit_ListComp(self, node):
+        # the targets of the generators are bound before the element is
+        # evaluated, but come after it in the node's fields
+        for generator in node.generators:
+            self.visit(generator)
+        self.visit(node.elt)
+
+    visit_SetComp = visit_GeneratorExp = visit_ListComp
+
+    def visit_DictComp(self, node):
+        for generator in node.generators:
+            self.visit(generator)
+        self.visit(node.key)
+        self.visit(node.value)
+
+    def visit_For(self, node):
+        # a name rebound anywhere in a loop may already be rebound when a call
+        # earlier in its body runs again
+        for name in _bound_names(node):
+            self.bind_name(name, node)
+        self.generic_visit(node)
+
+    visit_AsyncFor = visit_While = visit_For
 
     def visit_Nonlocal(self, node):
         for name in node.names:
